@@ -202,6 +202,14 @@ func getESDTNFTTokenOnSender(
 	if isNew {
 		return nil, ErrNewNFTDataOnSenderAddress
 	}
+	// the storage key is the plain concatenation of token identifier and nonce, so an identifier which is a prefix of
+	// another one can reach that token's entry - the entry found has to be the (token, nonce) which was asked for
+	if esdtData.TokenMetaData == nil && nonce > 0 {
+		return nil, ErrNFTDoesNotHaveMetadata
+	}
+	if esdtData.TokenMetaData != nil && esdtData.TokenMetaData.Nonce > 0 && esdtData.TokenMetaData.Nonce != nonce {
+		return nil, ErrNFTTokenDoesNotExist
+	}
 
 	return esdtData, nil
 }
